@@ -86,6 +86,20 @@ def crcvStore (single : Bool) (cap : Nat) (junk : UInt8) (lg : Crcv) (num m szx 
         else if single then (none, .body (b'.getD []) (offset + data.length))   -- body_length = saved_offset + length
         else (none, .last offset payload size2)
 
+/-- "Possibility that Size2 not sent, or is too small": `endOff = offset + length` -/
+def crcvSize2 (size2 : Option Nat) (m endOff : Nat) : Nat :=
+  let size2o := match size2 with | some s => s | none => 0
+  if size2o < endOff then (if m ≠ 0 then endOff + 1 else endOff) else size2o
+
+/-- "if (lg_crcv->initial) { … }  if (lg_crcv->total_len < size2) lg_crcv->total_len = size2;" -/
+def crcvInit (lg : Crcv) (szx size2 : Nat) (r : Resp) : Crcv :=
+  let lg1 : Crcv :=
+    if lg.initial then
+      { initial := false, recv := [], totalLen := size2, body := none, szx := szx,
+        etag := (match r.etag with | some e => e | none => lg.etag), etagSet := r.etag.isSome, fmt := r.fmt }
+    else lg
+  if lg1.totalLen < size2 then { lg1 with totalLen := size2 } else lg1
+
 /-- "if (have_block && (block.m || length))" … up to the ETag tests -/
 def crcvBlock (single : Bool) (cap : Nat) (junk : UInt8) (lg : Crcv) (num m szx : Nat) (r : Resp) :
     Option Crcv × CrcvOut :=
@@ -94,16 +108,8 @@ def crcvBlock (single : Bool) (cap : Nat) (junk : UInt8) (lg : Crcv) (num m szx 
   if m ≠ 0 ∧ data.length ≠ chunk then (none, .err402)                                -- "Undersized packet", expire_lg_crcv
   else
     let offset := num * chunk
-    let size2o := match r.size2 with | some s => s | none => 0
-    -- "Possibility that Size2 not sent, or is too small"
-    let size2 := if size2o < offset + data.length then (if m ≠ 0 then offset + data.length + 1 else offset + data.length)
-                 else size2o
-    let lg1 : Crcv :=
-      if lg.initial then
-        { initial := false, recv := [], totalLen := size2, body := none, szx := szx,
-          etag := (match r.etag with | some e => e | none => lg.etag), etagSet := r.etag.isSome, fmt := r.fmt }
-      else lg
-    let lg2 : Crcv := if lg1.totalLen < size2 then { lg1 with totalLen := size2 } else lg1
+    let size2 := crcvSize2 r.size2 m (offset + data.length)
+    let lg2 := crcvInit lg szx size2 r
     match r.etag with
     | some e =>
       if e ≠ lg2.etag then
